@@ -119,6 +119,7 @@ class Flow:
         self.condstack = []
         self.fnstack = []
         self.ifnodes = {}
+        self.dup = False       # MessageParser::new starts with allow_duplicates = false
 
     # -- environment handling --------------------------------------------
     def bind(self, pat, av, env):
@@ -195,6 +196,12 @@ class Flow:
         return self.ev(n.get("expr"), env, c) if n.get("expr") is not None else AV()
 
     def ev_let(self, n, env, c):
+        i0 = n.get("init")
+        if isinstance(i0, dict) and i0.get("k") == "mcall" and i0.get("m") == "with_duplicates":
+            v = lit_val((i0.get("args") or [None])[0])
+            self.dup = v if isinstance(v, bool) else None
+        if isinstance(i0, dict) and is_call(i0, "MessageParser::<'a>::new"):
+            self.dup = False
         av = self.ev(n.get("init"), env, "let") if n.get("init") is not None else AV()
         self.bind(n["pat"], av, env)
         if n.get("els"):
@@ -307,6 +314,10 @@ class Flow:
         return AV((), [self.ev(x, env).union(AV()) for x in n["es"]])
 
     def ev_assign(self, n, env, c):
+        r0 = n["r"]
+        if isinstance(r0, dict) and r0.get("k") == "mcall" and r0.get("m") == "with_duplicates":
+            v = lit_val((r0.get("args") or [None])[0])
+            self.dup = v if isinstance(v, bool) else None
         rv = self.ev(n["r"], env, "assign")
         l = n["l"]
         if l.get("k") == "local":
@@ -354,6 +365,7 @@ class Flow:
             s.consumer = c
             s.loops = tuple(self.loopstack)
             s.conds = tuple(self.condstack)
+            s.dup = self.dup
             self.g.sites.append(s)
             return AV([("P", s.id)])
         if f.endswith("parser::utils::verify_parser_complete") or f.endswith("MessageParser::<'a>::is_complete"):
